@@ -26,7 +26,7 @@ SHARDS = 16
 GRACE, SHUT = 0.4, 0.4
 HORIZON = 5.0
 
-KINDS = ["idle_keepalive", "partial_head", "inflight_short", "pipelined_behind_inflight", "h2_two_inflight", "inflight_long", "stuck_forever", "unread_response", "h2_open_stream",
+KINDS = ["idle_keepalive", "partial_head", "inflight_short", "pipelined_behind_inflight", "h2_two_inflight", "inflight_long", "stuck_forever", "unread_response", "unread_response_halfclosed", "h2_open_stream",
          "h2_idle", "websocket_open"]
 
 
@@ -38,6 +38,11 @@ def gen(rng, tier):
                 for count in ([1] if tier == "quick" and kind not in ("stuck_forever", "idle_keepalive") else [1, 5]) + ([20] if kind == "stuck_forever" else []):
                     yield {"family": "%s.x%d" % (kind, count), "backend": be, "kind": kind, "count": count, "trigger": "callable", "rep": rep}
             yield {"family": "max_requests.idle", "backend": be, "kind": "idle_keepalive", "count": 2, "trigger": "max_requests", "rep": rep}
+            # the lifespan application is not gone the instant it has said shutdown.complete (clean-up of its own, a middleware leaving
+            # its task group): serve() still has to *return*
+            for ls in ("lingers", "yields"):
+                yield {"family": "lifespan-%s.idle" % ls, "backend": be, "kind": "idle_keepalive", "count": 1, "trigger": "callable", "rep": rep, "ls": ls}
+            yield {"family": "lifespan-lingers.inflight", "backend": be, "kind": "inflight_short", "count": 1, "trigger": "callable", "rep": rep, "ls": "lingers"}
 
 
 def run_one(case, tally):
@@ -57,6 +62,8 @@ def run_one(case, tally):
                      ["send_stream", ("c15", 1), big, 65536, True]],
         },
     }
+    if case.get("ls"):
+        apps["lifespan"] = apps["lifespan"] + ([["sleep", 0.15]] if case["ls"] == "lingers" else [["yield", 2]])
     cfg = {"graceful_timeout": GRACE if kind not in ("inflight_short", "pipelined_behind_inflight", "h2_two_inflight") else 3.0, "shutdown_timeout": SHUT, "keep_alive_timeout": 30.0}
     if case["trigger"] == "max_requests":
         cfg["max_requests"] = 2
@@ -87,7 +94,7 @@ def run_one(case, tally):
                 s.sendall(b"GET /long HTTP/1.1\r\nHost: h\r\n\r\n")
             elif kind == "stuck_forever":
                 s.sendall(b"GET /stuck HTTP/1.1\r\nHost: h\r\n\r\n")
-            elif kind == "unread_response":
+            elif kind in ("unread_response", "unread_response_halfclosed"):
                 s.setsockopt(socket.SOL_SOCKET, socket.SO_RCVBUF, 4096)
                 s.sendall(b"GET /big HTTP/1.1\r\nHost: h\r\n\r\n")
             elif kind == "h2_two_inflight":
@@ -108,13 +115,18 @@ def run_one(case, tally):
                 s.sendall(ws.handshake(path=b"/ws%d" % i))
                 recv_until(s, b"\r\n\r\n", timeout=1.0)
         # let the server get every request going
-        want_apps = {"inflight_short": "/short", "pipelined_behind_inflight": "/short", "h2_two_inflight": "/short2", "inflight_long": "/long", "stuck_forever": "/stuck", "unread_response": "/big", "h2_open_stream": "/stuck"}.get(kind)
+        want_apps = {"inflight_short": "/short", "pipelined_behind_inflight": "/short", "h2_two_inflight": "/short2", "inflight_long": "/long", "stuck_forever": "/stuck", "unread_response": "/big", "unread_response_halfclosed": "/big", "h2_open_stream": "/stuck"}.get(kind)
         if want_apps:
             end = time.monotonic() + 2.0
             while time.monotonic() < end and sum(1 for e in tr.events if e[2] == "app" and e[3] == "start" and e[4]["scope"].get("path") == want_apps) < len(socks):
                 time.sleep(0.01)
-        if kind == "unread_response":
+        if kind in ("unread_response", "unread_response_halfclosed"):
             time.sleep(0.3)  # let the kernel buffers fill
+        if kind == "unread_response_halfclosed":
+            # the client has finished sending (FIN) but still does not read: the server's reading has ended, its writing has not
+            for s in socks:
+                s.shutdown(socket.SHUT_WR)
+            time.sleep(0.2)
         if kind == "h2_idle":
             for s in socks:
                 s.settimeout(0.5)
@@ -181,6 +193,9 @@ def run_one(case, tally):
                 # delivered in full = all the bytes *and* the end of the stream
                 seen.setdefault("short", []).append(bodies.get(1) == b"short" and bodies.get(3) == b"short2" and ended >= {1, 3})
                 seen.setdefault("h2_detail", []).append((dict(bodies), sorted(ended)))
+                # "the peer is told to go away": a connection that was busy at the trigger and is closed once its streams have finished
+                # must have carried a GOAWAY before its end (a bare EOF tells an HTTP/2 client nothing about which streams were processed)
+                seen.setdefault("h2_goaway_before_eof", []).append((any(e["t"] == "goaway" for e in evs), eof))
         if kind in ("inflight_short", "pipelined_behind_inflight"):
             time.sleep(0.2)
             h.apps.trigger("finish")
@@ -261,8 +276,17 @@ def run_one(case, tally):
                                        "and returned only once the clients were released" % (case["count"], kind, HORIZON, GRACE, SHUT)})
         else:
             tally.inconclusive["serve-never-returned(%s/%s)" % (be, kind)] += 1
-    if isinstance(h.result, tuple) and kind not in ("stuck_forever",):
-        tally.notes["serve-raised:%s" % h.result[1].strip().splitlines()[-1][:60]] += 1
+    if isinstance(h.result, tuple):
+        last = h.result[1].strip().splitlines()[-1]
+        if "LifespanTimeoutError" in last or "LifespanFailureError" in last:
+            tally.notes["serve-raised:%s" % last[:60]] += 1
+        else:
+            # "... runs lifespan shutdown, and returns": the lifespan application completed its shutdown, nothing failed
+            tally.clause("returns")
+            findings.append({"clause": "bounded", "sig": "C15.serve-raised/%s/%s" % (be, last.split(":")[0].split(".")[-1][:40]), "backend": be,
+                             "detail": "serve() did not return but raised %s after an orderly shutdown (%s, lifespan %s)" % (last[:120], kind, case.get("ls", "plain"))})
+    elif h.result == "returned":
+        tally.clause("returns")
     if "during_grace" in seen:
         if seen["during_grace"] is None:
             tally.inconclusive["witness-connection-not-closed"] += 1
@@ -304,6 +328,15 @@ def run_one(case, tally):
                 findings.append({"clause": "inflight-delivered", "sig": "C15.lifespan-shutdown-before-drain/%s" % be, "backend": be,
                                  "detail": "lifespan.shutdown was delivered (seq %d) while a request that went on to finish inside the grace period was "
                                            "still in progress (it returned at seq %d)" % (ls[0][0], max(x[0] for x in exits))})
+    if kind == "h2_two_inflight":
+        tally.clause("h2-goaway")
+        for goaway, eof in seen.get("h2_goaway_before_eof", []):
+            if eof and not goaway:
+                findings.append({"clause": "no-new-work", "sig": "C15.h2-closed-without-goaway/%s" % be, "backend": be,
+                                 "detail": "HTTP/2 connection with streams in progress at the trigger: the responses arrived and the connection was closed, "
+                                           "but no GOAWAY was ever sent"})
+            elif not eof:
+                tally.notes["h2-two-inflight-not-closed-within-observation"] += 1
     if kind in ("h2_idle", "h2_open_stream"):
         tally.clause("h2-refused")
         for goaway, rst3, eof, hdr3 in seen.get("h2", []):
@@ -316,7 +349,7 @@ def run_one(case, tally):
 
 
 def _mech(kind):
-    return {"stuck_forever": "stuck-request", "unread_response": "client-not-reading", "h2_open_stream": "stuck-h2-stream",
+    return {"stuck_forever": "stuck-request", "unread_response": "client-not-reading", "unread_response_halfclosed": "client-not-reading-half-closed", "h2_open_stream": "stuck-h2-stream",
             "websocket_open": "open-websocket", "inflight_long": "request-longer-than-grace", "partial_head": "partial-head"}.get(kind, kind)
 
 
